@@ -239,28 +239,22 @@ func (r *WireReader) Range(start, end int) Wire {
 	if start < 0 || end > r.accSz[len(r.wire)] || start > end {
 		return nil
 	}
-	var startSeg, startPos, endSeg, endPos int
+	ret := make(Wire, 0, 2)
 	for i := 0; i < len(r.wire); i++ {
-		if r.accSz[i] <= start && r.accSz[i+1] > start {
-			startSeg = i
-			startPos = start - r.accSz[i]
+		segStart, segEnd := r.accSz[i], r.accSz[i+1]
+		if segEnd <= start || segStart >= end {
+			continue
 		}
-		if r.accSz[i] < end && r.accSz[i+1] >= end {
-			endSeg = i
-			endPos = end - r.accSz[i]
+		s, e := 0, segEnd-segStart
+		if start > segStart {
+			s = start - segStart
 		}
+		if end < segEnd {
+			e = end - segStart
+		}
+		ret = append(ret, r.wire[i][s:e])
 	}
-	if startSeg == endSeg {
-		return Wire{r.wire[startSeg][startPos:endPos]}
-	} else {
-		ret := make(Wire, endSeg-startSeg+1)
-		ret[0] = r.wire[startSeg][startPos:]
-		for i := startSeg + 1; i < endSeg; i++ {
-			ret[i] = r.wire[i]
-		}
-		ret[endSeg-startSeg] = r.wire[endSeg][:endPos]
-		return ret
-	}
+	return ret
 }
 
 func (r *WireReader) Skip(n int) error {
